@@ -32,6 +32,46 @@ class NotInlinable(Exception):
     pass
 
 
+class _LoopsToAny(ast.NodeTransformer):
+    """`for T in IT: if C: return K` (nothing else in the loop) is `if any(C for T in IT): return K` -- normal form for rules that
+    read quantified tests; K must be a constant, only logging may precede the return"""
+
+    def visit_FunctionDef(self, n):
+        return n
+
+    visit_AsyncFunctionDef = visit_Lambda = visit_FunctionDef
+
+    def visit_For(self, n):
+        self.generic_visit(n)
+        if n.orelse or len(n.body) != 1 or not isinstance(n.body[0], ast.If) or n.body[0].orelse:
+            return n
+        inner = n.body[0]
+        tail = inner.body[-1]
+        if not (isinstance(tail, ast.Return) and isinstance(tail.value, ast.Constant)):
+            return n
+        if not all(isinstance(x, ast.Expr) and isinstance(x.value, ast.Call) and is_logging_call(x.value) for x in inner.body[:-1]):
+            return n
+        if any(isinstance(x, (ast.Yield, ast.YieldFrom, ast.Await, ast.NamedExpr)) for x in ast.walk(inner.test)):
+            return n
+        gen = ast.GeneratorExp(elt=inner.test, generators=[ast.comprehension(target=n.target, iter=n.iter, ifs=[], is_async=0)])
+        call = ast.Call(func=ast.Name(id="any", ctx=ast.Load()), args=[gen], keywords=[])
+        new = ast.If(test=call, body=inner.body, orelse=[])
+        ast.copy_location(new, n)
+        ast.copy_location(call, inner.test)
+        ast.copy_location(gen, inner.test)
+        ast.fix_missing_locations(new)
+        return new
+
+
+def normalise_body(body: List[ast.stmt]) -> List[ast.stmt]:
+    out = []
+    t = _LoopsToAny()
+    for st in body:
+        r = t.visit(st)
+        out.extend(r if isinstance(r, list) else [r])
+    return out
+
+
 class _ReturnRewriter(ast.NodeTransformer):
     """`return v` -> `<ret> = v; InlineJump(label)` (nested function definitions are left alone)"""
 
@@ -126,7 +166,7 @@ class Flattener:
     def _instantiate(self, callee: FuncInfo, call: ast.Call, recv: Optional[ast.AST], stack, depth) -> Tuple[List[ast.stmt], ast.AST]:
         n = next(_counter)
         fn = copy.deepcopy(callee.node)
-        body = list(fn.body)
+        body = normalise_body(list(fn.body))
         if body and isinstance(body[0], ast.Expr) and isinstance(body[0].value, ast.Constant) and isinstance(body[0].value.value, str):
             body = body[1:]
         params = list(callee.params)
@@ -332,7 +372,7 @@ class Flattener:
     # ------------------------------------------------------------------ entry
     def run(self) -> FuncInfo:
         fn = copy.deepcopy(self.f.node)
-        fn.body = self._flatten_block(list(fn.body), self.f, (self.f.qn,), 1)
+        fn.body = self._flatten_block(normalise_body(list(fn.body)), self.f, (self.f.qn,), 1)
         if self.inlined:
             specialise(fn)
         ast.fix_missing_locations(fn)
